@@ -14,16 +14,17 @@ def tables():
 class ACase:
     n = 0
 
-    def __init__(self, cls, ops, react, tags=None, cfg=0, wf="-", ff="-", np=0):
+    def __init__(self, cls, ops, react, tags=None, cfg=0, wf="-", ff="-", np=0, stale=None):
         ACase.n += 1
         self.id = "a%d" % ACase.n
         self.cls, self.ops, self.react, self.tags, self.cfg, self.wf, self.ff, self.np = cls, ops, react, tags or {}, cfg, wf, ff, np
+        self.stale = stale or []
 
     def line(self):
         re_ = "|".join(events(r) for r in self.react) if self.react else "-"
         t = "".join(" %s=%s" % kv for kv in sorted(self.tags.items()))
-        return "%s cls=%s cfg=%d np=%d stale=- wf=%s ff=%s re=%s ops=%s%s" % (
-            self.id, self.cls, self.cfg, self.np, self.wf, self.ff, re_, ";".join(self.ops), t)
+        return "%s cls=%s cfg=%d np=%d stale=%s wf=%s ff=%s re=%s ops=%s%s" % (
+            self.id, self.cls, self.cfg, self.np, events(self.stale) if self.stale else "-", self.wf, self.ff, re_, ";".join(self.ops), t)
 
 
 def connect_react(dev):
@@ -56,6 +57,12 @@ def gen_connect_bad(rng, t):
         out.append(ACase("connect-malformed-id", ["connect"], [[ev_data(ping_resp())], [ev_data(frame(7, [dev & 0xFF, dev >> 8]))]], {"dev": dev, "mode": "malformed-id"}))
         out.append(ACase("connect-fault", ["connect"], connect_react(dev), {"dev": dev, "mode": "fault"}, wf="1"))
         out.append(ACase("connect-fault", ["connect"], connect_react(dev), {"dev": dev, "mode": "fault"}, wf="01"))
+        # input left unread on the port by an earlier session (a complete answer to some other command, a
+        # device-id answer of a different product, half a frame): the first command flushes it
+        other = known[(known.index(dev) + 7) % len(known)] if dev in known else 0xA056
+        for st in ([ev_data(get_resp(0xEDF0, [0x96, 0x00]))], [ev_data(done_resp(le(other, 2)))],
+                   [ev_data(ping_resp()), ev_data(done_resp(le(other, 2)))], [ev_data(b":7F0ED00")]):
+            out.append(ACase("connect-stale", ["connect"], connect_react(dev), {"dev": dev, "mode": "answers"}, stale=st))
         # a leading async frame before the answers is fine
         out.append(ACase("connect-async", ["connect"], [[ev_data(async_frame(rng) + ping_resp())], [ev_data(async_frame(rng) + d)]], {"dev": dev, "mode": "answers"}))
     return out
@@ -143,6 +150,29 @@ def gen_c09(rng, t, thorough):
             ops.append("read/%s/i" % reg["name"])
             react += [[] for _ in range(8)]            # silence: gives up after eight tries
             out.append(ACase("c09-errors", ops, react, tags, cfg=rng.below(4)))
+    return out
+
+
+def gen_c05(rng, t, thorough):
+    """C05 at the register API: every register of every distinct list x flags 1/2/4 x 0..3 trailing payload bytes,
+    first call idle or busy; the error must come back wrapped with the register name (":1"), matchable, after one frame"""
+    out = []
+    seen_lists = {}
+    for dev_s, idx in sorted(t["of"].items(), key=lambda kv: int(kv[0])):
+        seen_lists.setdefault(idx, int(dev_s))
+    for idx, dev in sorted(seen_lists.items()):
+        for reg in t["lists"][str(idx)]:
+            ops, react, tags = ["connect"], connect_react(dev), {"dev": dev, "prop": "C05"}
+            for trailing in ((0, 1, 2, 3) if thorough else (0, 1 + rng.below(3))):
+                for flag, cls in ((1, "Eunknownid"), (2, "Enotsupported"), (4, "Eparameter")):
+                    tags["x%d" % len(ops)] = cls + ":1"
+                    ops.append("read/%s/%s" % (reg["name"], rng.choice("ib")))
+                    resp = get_resp(reg["addr"], rng.bytes(trailing), flag=flag)
+                    if rng.chance(1, 4):
+                        resp = async_frame(rng) + resp   # an async frame first
+                    react.append(chunked(rng, resp, 3))
+            tags["frames"] = 2 + len(ops) - 1
+            out.append(ACase("c05-api", ops, react, tags, cfg=rng.below(4)))
     return out
 
 
@@ -276,6 +306,8 @@ def generate(tier, seed, which):
     if "C11" in which:
         out += gen_connect_all(rng, 1)
         out += gen_connect_bad(rng, t)
+    if "C05" in which:
+        out += gen_c05(rng, t, thorough)
     if "C09" in which:
         out += gen_c09(rng, t, thorough)
     if "C10" in which:
